@@ -32,6 +32,17 @@ CLAIMS = {
                 'bytes; every reader branch consumes exactly field.size bytes.',
         not_decided='that the persisted set is sufficient for bit-wise continuation of every integrator; padding bytes; the continuation itself (runtime)',
         design_ref='3/C05'),
+    'C06': dict(
+        module='c06', level='other',
+        technique='typestate walk of header/payload byte accounting in the delta encoder, event-order and symbolic byte accounting of the append protocol, sibling agreement of the cadence branches',
+        decided='in the delta encoder every header write is followed by exactly header.size payload bytes in the changed / new / vanished cases (vanished: size 0); '
+                'the append branch writes previous trailer, delta, END(size 0), new trailer in that order, records offset_next = bytes written before the next trailer, '
+                'offset_prev = that value, offset_next = 0, index+1, computes the delta with reb_binary_diff and checks/repairs the tail first; the index walk compares '
+                'offset_prev + sizeof(trailer) with the snapshot length and grows its arrays under a satisfiable test; a snapshot is loaded as first snapshot + delta at sa->offset[k]; '
+                'each cadence mode tests and advances the same deadline by its own cadence before saving; the setters re-arm only when their own cadence changes; '
+                'the archive heartbeat runs before every step and once after the loop; the changed-field flags of the delta encoder only accumulate.',
+        not_decided='arbitrary histories; acceptance of every well-formed file by the index walk; per-snapshot times equal to the first snapshot time',
+        design_ref='3/C06'),
     'C08': dict(
         module='c08', level='other',
         technique='structural/dominance checks on the exit state machine and the integrate driver (clang AST), operator-sequence time accounting, status-table agreement C enum vs Python ast',
